@@ -30,7 +30,9 @@ RULE = (
     "stale), and in Incremental::open every path that leaves a file out of the miss set has entry.is_some_and(hash equal) true and, "
     "unless consider_output is false or the file is an example, dst_is_stale false. R7 build outputs (emitted files, source maps, "
     "bundle, filelist) are written only through utils::write_output_if_changed, whose only file-changing callee is "
-    "veryl_path::atomic_write (R3): a crash leaves the old file or none, never a truncated one."
+    "veryl_path::atomic_write (R3): a crash leaves the old file or none, never a truncated one. R8 the derived serializer of "
+    "veryl_cache::FileEntry writes the fields in declaration order and the field written last is required by the derived deserializer "
+    "(missing_field on a non-Option type, no serde default): a manifest entry cut short at a line boundary never parses."
 )
 
 CRATES = ["veryl_cache", "veryl_path", "veryl"]
@@ -420,7 +422,57 @@ def run(world, tier, info, only=None):
             for bi, tt in f.calls("^" + re.escape(DS) + "$"):
                 r, pth = flow.access_path(f, tt["args"][1])
                 ck.ob("R6", "open/staleness-of-this-file", r[0] == "call" and r[2] == head and pth[:2] == ("Some", "0"), site(so, tt["l"]), "dst_is_stale is asked about the file of this iteration")
+    _entry_truncation(ck, w)
     return ck.finish(info)
+
+
+def _entry_truncation(ck, w):
+    """R8: manifest.toml is the only thing that vouches for a fragment. The derived serializer writes an entry's fields in
+    declaration order, one line each; a manifest cut at a line boundary inside an entry (damage; the write itself is atomic, R3) still
+    parses if every field after the cut is optional, and the entry then restores a fragment without the lost fields. The last field
+    written must therefore be required by the derived deserializer (serde::private::de::missing_field on a type that is not Option,
+    no #[serde(default)]): then every cut inside an entry fails to parse and Store::open discards the whole manifest."""
+    adt = w.adts.get("veryl_cache::FileEntry")
+    ser = [p for p in w.fns if p.endswith("Serialize for veryl_cache::FileEntry>::serialize") and "Deserialize" not in p]
+    de = [p for p in w.fns if "Deserialize<'de> for veryl_cache::FileEntry" in p and p.endswith("::visit_map")]
+    if not adt or not ser or not de:
+        ck.missing("R8", "veryl_cache::FileEntry and its derived Serialize / Deserialize (visit_map)")
+        return
+    fields = [(f["name"], f["ty"]) for f in adt["variants"][0]["fields"]]
+    gs = Fn(w.mir(ser[0]))
+    order = []
+    for bi, t in sorted(gs.calls(r"SerializeStruct::serialize_field$"), key=lambda z: z[0]):
+        a = t["args"][1]
+        if a[0] == "k" and isinstance(a[1], dict) and "str" in a[1]:
+            order.append(a[1]["str"])
+    ck.ob("R8", "entry/serialized-in-declaration-order", order == [n for n, _ in fields], site(w.fns[ser[0]]),
+          "FileEntry is written field by field in declaration order %s" % order if order == [n for n, _ in fields] else
+          "FileEntry's serializer writes %s, the declaration is %s: cannot tell which field is written last" % (order, [n for n, _ in fields]))
+    gd = Fn(w.mir(de[0]))
+    required = set()
+    for bi, t in gd.calls(r"serde::private::de::missing_field$|serde_core::private::de::missing_field$|::de::missing_field$"):
+        a = t["args"][0]
+        if a[0] == "k" and isinstance(a[1], dict) and "str" in a[1]:
+            required.add(a[1]["str"])
+    ty = dict(fields)
+    required = {n for n in required if not ty.get(n, "").startswith("core::option::Option<")}
+    ck.ob("R8", "entry/required-fields", "hash" in required, site(w.fns[de[0]]), "fields whose absence fails the parse: %s" % sorted(required))
+    if not order:
+        return
+    # every field from the fragment reference on must be followed by (or be) a required field
+    last = order[-1]
+    tail_opt = []
+    for n in reversed(order):
+        if n in required:
+            break
+        tail_opt.append(n)
+    ok = last in required
+    ck.ob("R8", "entry/last-written-field-is-required", ok, site(w.fns[de[0]]),
+          "the last field written (`%s`) is required when the manifest is read: an entry cut short at any line boundary fails to parse and the "
+          "manifest is discarded as a whole" % last if ok else
+          "the fields written last (%s) are optional when the manifest is read: a manifest.toml cut at a line boundary after `%s` parses, and the entry "
+          "restores its fragment without them (lost diagnostics are never replayed again, lost dependents are not invalidated)"
+          % (", ".join("`%s`" % x for x in reversed(tail_opt)), order[len(order) - len(tail_opt) - 1] if len(tail_opt) < len(order) else "the key"))
 
 
 def _ref_local_name(f, op):
